@@ -197,8 +197,6 @@ def gen_opts(rng, tier_full=True, allow_zstd=True):
          'flags': rng.choice([0, 0, 0, 1, 2, 3, 4, 5, 6, 7]),
          'descriptor': rng.chance(1, 3),
          'userdata': {}}
-    if o['compression'] == 0:
-        o['flags'] &= ~2      # RestartCompression without a compressor: separate probe (finding D5)
     if rng.chance(1, 4):
         o['userdata'] = {'k%d' % i: 'v' * rng.below(5) for i in range(rng.below(3) + 1)}
     return o
